@@ -655,11 +655,29 @@ def r_cfbtab(ctx, rep):
         rep.anchor_missing("R-CFBTAB", "cfb::Cfb::new")
         return
     seen = set()
+    # the tables are the Vec<u32> locals that end up in the `Cfb { fats, mini_fats, .. }` value (through lets and
+    # tuple destructuring); the DIFAT work list, which is legitimately popped, never gets there
+    table_lids = set()
+    for st_ in walk_k(fn.body, "Struct"):
+        if (norm(st_.get("res", {}).get("ctor_of") or st_.get("res", {}).get("def")) or "").endswith("cfb::Cfb"):
+            for f_ in st_.get("fields", []):
+                for p_ in walk_k(f_["e"], "Path"):
+                    if path_local(p_) and "Vec<u32>" in (p_.get("ty") or ""):
+                        table_lids.add(path_local(p_)[1])
+    for _ in range(3):
+        for l_ in walk_k(fn.body, "Let"):
+            if l_.get("init") is None:
+                continue
+            from .kit import pat_bindings as _pb
+            if any(lid in table_lids for _, lid in _pb(l_["pat"])):
+                for p_ in walk_k(l_["init"], "Path"):
+                    if path_local(p_) and "Vec<u32>" in (p_.get("ty") or ""):
+                        table_lids.add(path_local(p_)[1])
     for n in walk_k(fn.body, "MethodCall"):
         r = peel(n["recv"])
         t = (r.get("ty") or "").replace("&mut ", "").replace("&", "")
         pl = path_local(r)
-        if t != "alloc::vec::Vec<u32>" or not pl or pl[0] == "difat":
+        if t != "alloc::vec::Vec<u32>" or not pl or (table_lids and pl[1] not in table_lids) or (not table_lids and pl[0] == "difat"):
             continue
         key = "cfb::Cfb::new|R-CFBTAB|%s.%s" % (pl[0], n["name"])
         if key in seen:
@@ -670,9 +688,8 @@ def r_cfbtab(ctx, rep):
         else:
             rep.violation("R-CFBTAB", key, loc(n), "the sector table `%s` is modified by `%s` after being decoded: entries of valid sectors can be lost, so a stream whose chain passes through them is cut short or the lookup panics" % (pl[0], n["name"]))
     # the tables must exist
-    names = {p["name"] for p in walk_k(fn.body, "Binding") if (p.get("ty") or "") == "alloc::vec::Vec<u32>"}
-    if not ({"fats"} & names):
-        rep.anchor_missing("R-CFBTAB", "local `fats: Vec<u32>` in cfb::Cfb::new")
+    if not table_lids:
+        rep.anchor_missing("R-CFBTAB", "Vec<u32> locals flowing into the Cfb value built by cfb::Cfb::new")
     rep.floor("R-CFBTAB", 1, "fats.extend(..)")
 
 
@@ -767,7 +784,8 @@ def r_tab_attr(ctx, rep):
                 continue
             adv = []
             for asg in walk_k(a["body"], "Assign"):
-                if path_local(asg["l"]) and path_local(asg["l"])[0] == "rgce":
+                cur_lid = fn.params[0].get("lid") if fn.params and fn.params[0].get("k") == "Binding" else None
+                if path_local(asg["l"]) and (path_local(asg["l"])[0] == "rgce" or path_local(asg["l"])[1] == cur_lid):
                     for ix in walk_k(asg["r"], "Index"):
                         idx = unwrap(ix["idx"])
                         if idx.get("k") == "Struct":
@@ -1362,7 +1380,8 @@ def r_strbytes(ctx, rep):
     ok = False
     where = arm
     for asg in walk_k(arm["body"], "Assign"):
-        if path_local(asg["l"]) and path_local(asg["l"])[0] == "rgce":
+        cur_lid = pf.params[0].get("lid") if pf.params and pf.params[0].get("k") == "Binding" else None
+        if path_local(asg["l"]) and (path_local(asg["l"])[0] == "rgce" or path_local(asg["l"])[1] == cur_lid):
             where = asg
             for p in walk_k(asg["r"], "Path"):
                 pl = path_local(p)
@@ -1565,8 +1584,7 @@ def r_names1to1(ctx, rep):
         return
     n = 0
     for l in walk_k(fn.body, "Let"):
-        names = [b[0] for b in __import__("rules.kit", fromlist=["pat_bindings"]).pat_bindings(l["pat"])]
-        if names != ["defined_names"] or l.get("init") is None:
+        if l.get("init") is None or l["pat"].get("k") != "Binding":
             continue
         init = unwrap(l["init"])
         chain = []
@@ -1575,7 +1593,7 @@ def r_names1to1(ctx, rep):
             chain.append(e["name"])
             e = peel(e["recv"])
         root = path_local(e) if isinstance(e, dict) else None
-        if not root or root[0] != "defined_names":
+        if not root or (root[0] != "defined_names" and (e.get("ty") or "") != "alloc::vec::Vec<(alloc::string::String, (core::option::Option<usize>, alloc::string::String))>"):
             continue
         n += 1
         key = "xls::Xls::parse_workbook|R-NAMES1TO1|#%d" % n
@@ -1592,7 +1610,7 @@ def r_names1to1(ctx, rep):
             while isinstance(root, dict) and root.get("k") == "MethodCall":
                 root = peel(root["recv"])
             rl = path_local(root) if isinstance(root, dict) else None
-            if not rl or rl[0] != "defined_names":
+            if not rl or (rl[0] != "defined_names" and (root.get("ty") or "") != "alloc::vec::Vec<(alloc::string::String, (core::option::Option<usize>, alloc::string::String))>"):
                 continue
             n += 1
             key = "xls::Xls::parse_workbook|R-NAMES1TO1|#%d" % n
@@ -1693,11 +1711,17 @@ def r_ovbachunk(ctx, rep):
         rep.anchor_missing("R-OVBACHUNK", "cfb::decompress_stream")
         return
     found = False
+    # the chunk size: a local initialised from `<header> & 0x0FFF`
+    size_lids = set()
+    for l_ in walk_k(fn.body, "Let"):
+        if l_.get("init") is not None and l_["pat"].get("k") == "Binding" and any(b.get("op") == "&" and 0x0FFF in (lit_value(b["l"]), lit_value(b["r"])) for b in walk_k(l_["init"], "Binary")):
+            size_lids.add(l_["pat"]["lid"])
     for lp, lanc in walk_anc(fn.body):
         if lp.get("k") != "Loop":
             continue
         for st, anc in walk_anc(lp.get("body") or {}):
-            if not (st.get("k") == "Let" and st.get("init") is not None and unwrap(st["init"]).get("k") == "Index" and (st["pat"].get("name") or "").startswith("bit")):
+            if not (st.get("k") == "Let" and st.get("init") is not None and unwrap(st["init"]).get("k") == "Index" and st["pat"].get("ty") == "u8"
+                    and path_local(peel(unwrap(st["init"])["e"])) and fn.params and path_local(peel(unwrap(st["init"])["e"]))[1] == fn.params[0].get("lid")):
                 continue
             if any(a.get("k") == "Loop" for a in anc):
                 continue          # belongs to an inner loop
@@ -1706,9 +1730,9 @@ def r_ovbachunk(ctx, rep):
             # (a) nested form: the read sits in the continuation of `if <chunk exhausted> { break }`
             for a in anc:
                 if a.get("k") == "If":
-                    names = {path_local(p)[0] for p in walk_k(a["cond"], "Path") if path_local(p)}
+                    lids_ = {path_local(p)[1] for p in walk_k(a["cond"], "Path") if path_local(p)}
                     leaving, cont = (a["then"], a.get("els")) if a.get("src") != "EarlyExitNeg" else (a.get("els"), a["then"])
-                    if {"chunk_len", "chunk_size"} <= names and leaving is not None and any(x.get("k") == "Break" for x in walk(leaving)) and cont is not None and any(x is st for x in walk(cont)):
+                    if size_lids & lids_ and len(lids_) >= 2 and leaving is not None and any(x.get("k") == "Break" for x in walk(leaving)) and cont is not None and any(x is st for x in walk(cont)):
                         guard = a
             if guard is not None:
                 rep.holds("R-OVBACHUNK", key, loc(guard), "the flag byte is read only after `chunk_len` was tested against `chunk_size`")
